@@ -179,11 +179,11 @@ struct Interp : Sink
 	int predMask;
 	int nextEvId;
 	uint64_t logHash;
-	Rng aux;
+	Rng aux, fillRng;
 	std::vector<long> passedPerOp;
 	int nKeys;
 
-	explicit Interp(const Plan & p) : plan(p), inProc(-1), predMask(0), nextEvId(1), logHash(kHashInit), aux(p.schedSeed() ^ 0x2468ace)
+	explicit Interp(const Plan & p) : plan(p), inProc(-1), predMask(0), nextEvId(1), logHash(kHashInit), aux(p.schedSeed() ^ 0x2468ace), fillRng(p.schedSeed() ^ 0xf111)
 	{
 		for(int i = 0; i < MAXSLOT; ++i) cbFollow[i] = 0;
 		for(int i = 0; i < MAXSLOT; ++i) { slotObj[i] = -1; slotKey[i] = 0; slotProto[i] = 0; slotUsed[i] = false; slotUnusable[i] = false; handles[i] = Handle(); }
@@ -321,7 +321,7 @@ struct Interp : Sink
 
 	void construct(int o, int src, bool move)
 	{
-		store[o].fill(plan.user(U_FILL) == 4 ? (int)aux.below(4) : plan.user(U_FILL), aux);
+		store[o].fill(plan.user(U_FILL) == 4 ? (int)fillRng.below(4) : plan.user(U_FILL), fillRng);   // its own stream: the fill pattern must not influence any other choice
 		++counters.dirtyConstructions;
 		{
 			FaultArm arm;
